@@ -143,8 +143,9 @@ def check_pair(ctx, kind, sub, A, B, tag, expect_different=False):
         ctx.count("pairs_equal_canon")
         ctx.covered("kinds_equal", kind)
         if a.sig != b.sig:
+            cause = "zero-with-free-indices" if has_zero_with_free_indices(A) else name
             ctx.violation(
-                f"C11/equal-forms-different-signature/{name}",
+                f"C11/equal-forms-different-signature/{cause}",
                 f"two forms with identical canon (kind {name}) have different signatures",
                 {"kind": name, "sigA": a.sig[:16], "sigB": b.sig[:16], "formA": _short(A), "formB": _short(B)},
             )
@@ -272,7 +273,7 @@ def random_case(ctx, i, rng):
         ctx.count("rebuilt_equal_checked")
         if has_zero_with_free_indices(F):
             ctx.count("rebuilt_with_zero_free_indices")
-        r = check_pair(ctx, "rebuilt" + ("-zero-with-free-indices" if has_zero_with_free_indices(F) else ""), None, F, F2, tag)
+        check_pair(ctx, "rebuilt", None, F, F2, tag)
     else:
         if T.anon_sorted_canon(F) == T.anon_sorted_canon(F2):
             ctx.count("rebuilt_operand_order_differs")
@@ -738,7 +739,7 @@ def _grp_zero_free_indices():
 
     base = mk(lambda b, i, j: z(b, i, j, lambda i: b.u[i]))
     return "zero-free-indices", base, [
-        ("rebuilt-zero-with-free-indices", mk(lambda b, i, j: z(b, i, j, lambda i: b.u[i]))),
+        ("rebuilt", mk(lambda b, i, j: z(b, i, j, lambda i: b.u[i]))),
         ("coefficient-identity", mk(lambda b, i, j: z(b, i, j, lambda i: b.w[i] + b.u[i]))),
     ]
 
